@@ -294,4 +294,4 @@ def run(ctx):
 def evidence_extra(agg):
     tr = {k[11:]: v for k, v in agg["counters"].items() if k.startswith("transition|")}
     states = {k[6:]: v for k, v in agg["counters"].items() if k.startswith("state:")}
-    return {"states": len(states), "transitions": len(tr), "state_visits": states, "transition_counts": dict(sorted(tr.items(), key=lambda kv: -kv[1])[:300])}
+    return {"evaluations": int(agg["counters"].get("steps_compared", 0)), "histories": agg["n_eval"], "states": len(states), "transitions": len(tr), "state_visits": states, "transition_counts": dict(sorted(tr.items(), key=lambda kv: -kv[1])[:300])}
